@@ -48,6 +48,14 @@ CHECKS = {
             "TAL/TA combinations over consecutive runs: unreachable, undecodable, other-key and expired downloads with and without stored copies; payload under a TAL iff the model finds a matching valid TA.",
             "HTTPS TA download through the simulated transport.",
             "deterministic simulation: TA fault sequences across runs", "§5 C10"),
+    "C31": (ENGINE_A, "exploration",
+            "Worlds where CA certificates announce caRepository and rpkiNotify URIs on localhost (case variants), IPv4 literals and explicit ports next to ordinary names, with the option on and off; invariant on the transport log of every run: with the option off no fake-rsync invocation and no simulated HTTPS request (other than configured TAL URIs) targets such an authority; with it on they do (non-vacuity probe).",
+            "Bracketed IPv6 literals cannot be expressed because rpki-rs rejects them when the URI is built; TAL URIs are configuration, not RPKI data.",
+            "deterministic simulation: transport-log invariant over generated hierarchies", "§5 C31"),
+    "C38": (ENGINE_A, "exploration",
+            "Single-run worlds with the object size limit drawn around real object sizes (L-1, L, L+1 of HTTPS TA certificates and of the largest object per RRDP repository; disabled; default), responses with and without Content-Length and with small chunk sizes; payload must equal the model (object used iff size <= L or limit disabled; oversize RRDP object fails the repository update and the fallback policy applies).",
+            "rsync --max-size is not exercised (the fake rsync is configured through rsync-args).",
+            "deterministic simulation: configuration/input swarm with reference-model oracle", "§5 C38"),
     "C39": (ENGINE_A, "exploration",
             "Snapshot refresh time compared with the model's minimum expiry over the chain of every contributing object (upper bound only).",
             "Model computes the bound from generator ground truth.",
